@@ -550,6 +550,73 @@ def defaults(ctx, R):
     return n
 
 
+def free_functions(ctx, R):
+    """R18.7 free #[pyfunction]s hand their parameters to the Rust function they project, in order, through
+    value-preserving conversions only (newtype field `.0`, transmute / into / clone / as_ref, or a map whose closure
+    only re-packs projections of its element) — no value is computed or defaulted in the binding."""
+    from lib import subst_upvars, closure_args_of_call
+    F = ctx.F
+    n = 0
+    pyf = sorted(set(b.npath.rsplit('::__pyfunction_', 1)[1] for b in F.fn_bodies()
+                     if '::__pyfunction_' in b.npath and b.kind != 'Closure'))
+    TRANSP = ('clone', 'into', 'from', 'as_ref', 'deref', 'as_slice', 'to_vec', 'to_owned', 'borrow', 'as_mut',
+              'deref_mut', 'unwrap', 'collect', 'into_iter', 'iter', 'cloned', 'copied')
+
+    def projection(e, owner):
+        """param index when e is a value-preserving projection of exactly one parameter, else None"""
+        x = e
+        while True:
+            if x.kind == 'cast' and x.args:
+                x = x.args[0]
+            elif x.kind == 'call' and x.name.rsplit('::', 1)[-1] in TRANSP and x.args:
+                x = x.args[0]
+            elif x.kind == 'call' and x.name.rsplit('::', 1)[-1] == 'map' and len(x.args) == 2:
+                # the mapping closure only re-packs projections of its element
+                clo = x.args[1]
+                ok = False
+                if clo.kind == 'agg' and clo.name.startswith('closure:'):
+                    for cb in F.get(clo.name.split(':', 1)[1]):
+                        r = ExprBuilder(cb).place(0, ())
+                        leaves_ok = all(y.kind in ('place', 'agg', 'cast') or
+                                        (y.kind == 'call' and y.name.rsplit('::', 1)[-1] in TRANSP)
+                                        for y in r.walk())
+                        ok = leaves_ok and all(pl.root == ('param', 2) for pl in r.places())
+                if not ok:
+                    return None
+                x = x.args[0]
+            else:
+                break
+        if x.kind == 'place' and x.root[0] == 'param' and all(f.isdigit() or f in ('0',) for f in x.fields):
+            return x.root[1]
+        return None
+    for fn in pyf:
+        bs = [b for b in F.fn_bodies() if b.npath.endswith('::' + fn) and b.kind != 'Closure']
+        for b in bs:
+            if b.nargs == 0:
+                continue
+            ctx.read(b)
+            delegates = []
+            for ob in [b] + all_closures(F, b):
+                eb = ExprBuilder(ob)
+                for c in ob.find_calls():
+                    if not F.get(c.callee) or c.callee.startswith('<') or 'pyo3' in c.callee:
+                        continue
+                    args = [subst_upvars(F, ob, eb.arg(c, i)) for i in range(len(c.args))]
+                    delegates.append((c, args))
+            n += 1
+            ctx.check(len(delegates) >= 1, R, b, fn + ':delegates', '%d call(s) into the crate' % len(delegates),
+                      '#[pyfunction] %s does not call any function of the crate' % fn)
+            for c, args in delegates[:1]:
+                got = [projection(a, b) for a in args]
+                n += 1
+                ctx.check(got == list(range(1, len(args) + 1)) and len(args) == b.nargs, R, b,
+                          fn + ':arguments-forwarded-unchanged->' + c.name, str(got),
+                          '#[pyfunction] %s calls %s with %s: every argument must be the like-positioned parameter '
+                          'through value-preserving conversions only (a value computed, defaulted or reordered in the '
+                          'binding makes Python and Rust disagree)' % (fn, c.callee, [repr(a)[:80] for a in args]), c.ln)
+    return n
+
+
 def run(ctx):
     _wiring(ctx)
     ctx.rule('R18.1', 'getters / setters return / assign the field they name')
@@ -562,6 +629,8 @@ def run(ctx):
     ctx.floor('R18.3', registration(ctx, 'R18.3'), 25)
     ctx.rule('R18.4', 'transmutes relate layout-compatible types')
     ctx.floor('R18.4', transmutes(ctx, 'R18.4'), 10)
+    ctx.rule('R18.7', 'free #[pyfunction]s forward their parameters unchanged, in order, to the Rust function')
+    ctx.floor('R18.7', free_functions(ctx, 'R18.7'), 6)
     ctx.rule('R18.5', 'default arguments equal the documented table and their Rust counterparts')
     ctx.floor('R18.5', defaults(ctx, 'R18.5'), 30)
 
